@@ -126,7 +126,7 @@ def model_query(case, impl_res):
         return dict(p=PID, op='from_sparse', nr=0, nloc=1, cols=[], chans=[0])
     nr, nloc, ind, rows = _store(case)
     q = dict(p=PID, op='features', nr=nr, nloc=nloc, cols=ind, rows=rows,
-             spike_templates=case['spec']['spike_templates'], spike_ids=case['spike_ids'])
+             spike_templates=D.expanded(case['spec'])['spike_templates'], spike_ids=case['spike_ids'])
     if op == 'features':
         q['chans'] = case['chans']
     else:
@@ -137,7 +137,7 @@ def model_query(case, impl_res):
 def oracle_stored(case):
     """the property: rows of STORED spikes; None for unstored (nothing claimed)"""
     nr, nloc, ind, rows = _store(case)
-    st = case['spec']['spike_templates']
+    st = D.expanded(case['spec'])['spike_templates']
     chans = case['chans'] if case['op'] == 'features' else list(range(len(case['spec']['templates'])))
     out = []
     for q in case['spike_ids']:
@@ -319,6 +319,29 @@ def gen(tier, rng):
                    chans=rng.sample(range(nc), rng.randrange(1, nc + 1)), chkind=rng.pick(['list', 'array']))
         sids2 = rng.sample(range(ns), rng.randrange(1, min(ns, 6) + 1))
         yield dict(p=PID, op='tfeatures', spec=spec, spike_ids=sids2)
+    # many spikes, few stored rows with large spike ids, requests in arbitrary order: the id lookups
+    # (index in the row table) run in their sparse regime
+    for i in range(4 if q else 60):
+        spec = D.random_spec(rng, raw=False, feats=False, tfeats=False, ns=rng.randrange(3, 8))
+        ns0, nt, nc = len(spec['spike_samples']), len(spec['templates']), spec['n_channels']
+        N = rng.pick([60000, 70000, 150000])
+        spec['pad_spikes'] = N
+        npcs, nloc = 2, rng.randrange(2, nc + 1)
+        keep = sorted(set(rng.sample(range(N), rng.randrange(3, 40)) + [N - 1 - rng.randrange(3)]))
+        if i % 2:
+            rng.shuffle(keep)
+        spec['pc_feature_spike_ids'] = keep
+        spec['pc_features'] = [[[float((r * nloc + kk + 1) * SCALE + p) for kk in range(nloc)] for p in range(npcs)] for r in range(len(keep))]
+        spec['pc_feature_ind'] = [rng.sample(range(nc), nloc) for _ in range(nt)]
+        tl = rng.randrange(2, nt + 1)
+        keep2 = sorted(rng.sample(range(N), rng.randrange(3, 40)))
+        spec['template_feature_spike_ids'] = keep2
+        spec['template_features'] = [[float(r * tl + kk + 1) for kk in range(tl)] for r in range(len(keep2))]
+        spec['template_feature_ind'] = [rng.sample(range(nt), tl) for _ in range(nt)]
+        sids = rng.sample(keep, rng.randrange(1, min(len(keep), 6) + 1))
+        yield dict(p=PID, op='features', spec=spec, spike_ids=sids, npcs_pow2=True,
+                   chans=rng.sample(range(nc), rng.randrange(1, nc + 1)), chkind=rng.pick(['list', 'array']))
+        yield dict(p=PID, op='tfeatures', spec=spec, spike_ids=rng.sample(keep2, rng.randrange(1, min(len(keep2), 6) + 1)))
     # PCA route
     for i in range(15 if q else 200):
         spec = D.random_spec(rng, raw=True, feats=False, tfeats=False, ns=rng.randrange(6, 14), nsw=rng.randrange(3, 6))
